@@ -162,6 +162,7 @@ pub fn classify(msg: &str) -> &'static str {
         ("divide by zero", "div0"),
         ("modulo by zero", "div0"),
         ("Modulo by zero", "div0"),
+        ("does not match the type annotation", "type"),
         ("Not enough parameters in format string", "index"),
         ("for format string", "format"),
         ("Incomplete format", "format"),
